@@ -5,6 +5,9 @@ pid, wt = sys.argv[1], sys.argv[2]
 N = int(os.environ.get('SEEDS', '2'))
 WORD = {2: 'TWO', 3: 'THREE', 4: 'FOUR'}[N]
 NS = ', '.join(str(i) for i in range(1, N + 1))
+EXTRA = ''
+if os.environ.get('FLAVOUR'):
+    EXTRA = ' Spread them over different kinds of mistake: at least one involving state carried over between calls or sessions (caches, pools, reused buffers, package-level variables, lazily initialised values), at least one at a size / width / count boundary away from the sizes the existing tests use, and at least one on an error path, a rarely taken branch or a refactoring that looks behaviour-preserving.'
 p = [json.loads(l) for l in open('/verif/properties.jsonl') if l.strip()]
 p = [x for x in p if x['id'] == pid][0]
 print(f"""You are given a scratch git worktree of the Go repository markkurossi/mpc at {wt} (a toolchain for secure two-party computation: MPCL compiler, garbled circuits, OT, p2p). Work ONLY inside {wt}; do not look at or touch /repo or /verif. No network. For every go command use: export GOFLAGS=-mod=mod GOPROXY=off (nothing else; do not set GOTOOLCHAIN or GOSUMDB).
@@ -19,7 +22,7 @@ Here is a semantic property the code is supposed to satisfy:
 Task: produce {WORD} different, realistic code changes (bugs a developer could plausibly introduce: an off-by-one at a boundary, a dropped guard, a swapped field, a missing step for one case, two cooperating edits that each look fine alone) to the non-test source files, each of which BREAKS this property while
   (1) the repository still compiles (go build ./... and go vet-free test compilation: go test -count=1 -run '^$' ./...),
   (2) the existing test suite still passes: go test -vet=off -count=1 ./...  (note: the root package test mpc::TestSuite fails on the UNCHANGED tree already because two data files are empty in this sandbox — ignore that one test; everything else must pass; running the packages you touched plus their dependents is enough if the full run is slow), and
-  (3) the breakage needs something SPECIFIC to manifest — a particular input shape or size, a particular width, a specific sequence of operations, a particular interleaving, a fault at a particular point — not something ordinary use would expose at once. Prefer subtle over blatant. The changes must all have different root causes / sites.
+  (3) the breakage needs something SPECIFIC to manifest — a particular input shape or size, a particular width, a specific sequence of operations, a particular interleaving, a fault at a particular point — not something ordinary use would expose at once. Prefer subtle over blatant. The changes must all have different root causes / sites.{EXTRA}
 
 For each change deliver, under {wt}/seed/<n>/ (n = {NS}):
   - patch.diff : `git diff` of the change against the worktree's HEAD (source files only, applies with `git apply`),
